@@ -282,6 +282,27 @@ def run_case(case):
                 cov['fault_sites']['iterable_source/row_%s' % at] = 1
                 judge(verdict, detail, committed, 'iterable source raising at row %s (%s rows, via %s)' % (at, n, via),
                       cls, 'source_iterable:%s' % ('sample' if isinstance(at, int) and at < 100 else 'after_sample'))
+        # the source is load((descriptor, resources_iterator)) and the resources iterator fails when it is asked for the
+        # resource after the last one (e.g. the tail of an inner flow chained through datastream())
+        for via in ('process', 'results'):
+            cls = rng.choice([c for c in faultlab.CLASSES if c != 'StopIteration'])
+            tag = 'tup%s_%s' % (case['pos'], via)
+            injected = faultlab.make_exception(cls, tag)
+            desc_ = {'resources': [{'name': 't', 'path': 't.csv', 'schema': {'fields': [{'name': 'id', 'type': 'integer'}]}}]}
+
+            def res_iter(injected=injected):
+                yield iter([{'id': i} for i in range(5)])
+                raise injected
+
+            def make_steps(tag_):
+                st = [d.load((copy.deepcopy(desc_), res_iter()), strip=False), d.add_field('z', 'integer', 1),
+                      d.dump_to_path('TD_' + tag_), d.checkpoint('TC', checkpoint_path='tcp_' + tag_)]
+                return st, [('dump', 'TD_' + tag_), ('checkpoint', 'tcp_%s/TC/stream.ndjson' % tag_)]
+            counters['faults_armed'] += 1
+            verdict, detail, committed = run_point('SRC', tag, make_steps, injected, via)
+            cov['fault_sites']['tuple_source/resources_iterator_exhaustion'] = 1
+            judge(verdict, detail, committed, 'resources iterator of load((descriptor, iterator)) raising at its exhaustion '
+                  '(via %s)' % via, cls, 'source_tuple:exhaustion')
         return dict(nontrivial=counters['faults_fired'] > 0, violations=viol, cov=cov, counters=counters,
                     sample={'family': fam})
     if fam == 'inserted':
